@@ -36,6 +36,7 @@ type c06Op struct {
 type c06Scenario struct {
 	Ops    []c06Op `json:"ops"`
 	Struct bool    `json:"struct_elements"`
+	Any    bool    `json:"interface_elements_some_of_them_nil,omitempty"`
 	Long   bool    `json:"long_backlogs,omitempty"`
 
 	h      *Hist
@@ -49,6 +50,7 @@ var c06Kinds = []string{"Offer", "Put", "Push", "Unshift", "Poll", "Take", "Shif
 func genC06(t *simrt.Tape, tier string) Scenario {
 	sc := &c06Scenario{probes: map[string]int{}}
 	sc.Struct = t.Bool(1, 3)
+	sc.Any = !sc.Struct && t.Bool(1, 4)
 	// swarm: a random subset of operations, adds always possible
 	var enabled []string
 	for _, k := range c06Kinds {
@@ -203,11 +205,74 @@ func (d c06Str) Clear()             { d.q.Clear() }
 func (d c06Str) Keep(n int)         { d.q.KeepNodePoolCount(n) }
 func (d c06Str) ClearPool()         { d.q.ClearNodePool() }
 
+// c06Any: interface-typed elements; every fourth value is stored as an untyped nil (a value like any other: the model
+// remembers it as -4).
+type c06Any struct {
+	q *fpgo.LinkedListQueue[interface{}]
+}
+
+func c06AnyModel(v int) int {
+	if v%4 == 0 {
+		return -4
+	}
+	return v
+}
+func mkAny(v int) interface{} {
+	if v%4 == 0 {
+		return nil
+	}
+	return v
+}
+func unAny(e interface{}, err error) (int, error) {
+	if err != nil {
+		return 0, err
+	}
+	if e == nil {
+		return -4, nil
+	}
+	if i, ok := e.(int); ok {
+		return i, nil
+	}
+	return -999999, nil
+}
+func (d c06Any) Add(kind string, v int) error {
+	switch kind {
+	case "Offer":
+		return d.q.Offer(mkAny(v))
+	case "Put":
+		return fpgo.Queue[interface{}](d.q).Put(mkAny(v))
+	case "Push":
+		return fpgo.Stack[interface{}](d.q).Push(mkAny(v))
+	default:
+		return d.q.Unshift(mkAny(v))
+	}
+}
+func (d c06Any) Remove(kind string) (int, error) {
+	switch kind {
+	case "Poll":
+		return unAny(fpgo.Queue[interface{}](d.q).Poll())
+	case "Take":
+		return unAny(fpgo.Queue[interface{}](d.q).Take())
+	case "Shift":
+		return unAny(d.q.Shift())
+	default:
+		return unAny(fpgo.Stack[interface{}](d.q).Pop())
+	}
+}
+func (d c06Any) Peek() (int, error) { return unAny(d.q.Peek()) }
+func (d c06Any) Count() int         { return d.q.Count() }
+func (d c06Any) Clear()             { d.q.Clear() }
+func (d c06Any) Keep(n int)         { d.q.KeepNodePoolCount(n) }
+func (d c06Any) ClearPool()         { d.q.ClearNodePool() }
+
 func (sc *c06Scenario) Run(s *simrt.Sim) {
 	h := &Hist{S: s}
 	sc.h = h
 	var d c06Deque
-	if sc.Struct {
+	if sc.Any {
+		d = c06Any{fpgo.NewLinkedListQueue[interface{}]()}
+		sc.probes["interface-elements-with-nils"]++
+	} else if sc.Struct {
 		d = c06Str{fpgo.NewLinkedListQueue[c06Elem]()}
 	} else {
 		d = c06Int{fpgo.NewLinkedListQueue[int]()}
@@ -293,6 +358,9 @@ func (sc *c06Scenario) Run(s *simrt.Sim) {
 				ok = false
 				break
 			}
+			if sc.Any {
+				v = c06AnyModel(v)
+			}
 			if o.Kind == "Unshift" {
 				model = append([]int{v}, model...)
 			} else {
@@ -311,6 +379,9 @@ func (sc *c06Scenario) Run(s *simrt.Sim) {
 					}
 					ok = false
 					break
+				}
+				if sc.Any {
+					v = c06AnyModel(v)
 				}
 				model = append(model, v)
 			}
@@ -365,7 +436,7 @@ func (sc *c06Scenario) Run(s *simrt.Sim) {
 
 // Signature: the operation history plus the allocator decisions that fired.
 func (sc *c06Scenario) Signature(res *simrt.Result) string {
-	return fmt.Sprint(sc.Ops, sc.Struct, res.Faults)
+	return fmt.Sprint(sc.Ops, sc.Struct, sc.Any, res.Faults)
 }
 
 func nStr(o c06Op) string {
